@@ -208,10 +208,13 @@ Print Assumptions C14_transformed_ints_is_the_codes_call.
 
 (* model level: an accepted call with a transform (any number of rows) returns what the
    untransformed path returns for T^T P T; and that call is accepted too.
-   PARTIAL: the hypothesis [squareb ...] says that the model's integral array is K x K x N.  It is
-   not proved for every basis here (it needs the shapes of every shell's norm / spherical-transform
-   tables); it is decided by computation per basis (Example below), and the runner evaluates it for
-   the array of EVERY case of the correspondence run (the harness stops if it is ever false). *)
+   PARTIAL here: the hypothesis [squareb ...] says that the model's integral array is K x K x N.
+   It is PROVED for every basis of well-formed shells in Props/C14_full.v
+   (C14_shape_bit_is_a_theorem; the statement without the hypothesis is
+   C14_esp_transform_is_backtransformed there); this version is kept because it also covers
+   shells with component lists of non-standard size, for which the bit is decided by computation
+   (Example below; the runner evaluates it for the array of EVERY case of the correspondence run,
+   the harness stops if it is ever false). *)
 Theorem C14_esp_transform_is_backtransformed_partial :
   forall (F : Type) (K : Fops F), is_field K ->
   forall basis P points ncoords ncharges T thr v,
